@@ -73,6 +73,14 @@ def check(ctx):
     ext = [c for c in walk_own(gw.node) if method_call(c, 'extend')]
     ok = len(ext) == 2 and norm(ext[0].args[0]) == "struct.pack('<BB', targetsAndFlags, functionAndVersion)" and norm(ext[1].args[0]) == 'self.data'
     ctx.inst('R1', gw, 'w:layout', ok, 'wire data = <BB(byte0, byte1) then the payload; found %s' % [norm(c) for c in ext])
+    # the bytes that go out are the locals as they stand AT the pack: a flag or-ed in afterwards never reaches the wire
+    if ext:
+        pkn = g.node_of(ext[0])
+        packed = {x.id for x in ast.walk(ext[0].args[0]) if isinstance(x, ast.Name)} if ext[0].args else set()
+        after = [n for n in g.nodes if n.kind == 'stmt' and isinstance(n.ast, (ast.Assign, ast.AugAssign)) and
+                 any(isinstance(t, ast.Name) and t.id in packed for t in (n.ast.targets if isinstance(n.ast, ast.Assign) else [n.ast.target]))
+                 and pkn is not None and g.path_avoiding(pkn, [n]) is not None]
+        ctx.inst('R1', gw, 'w:header-final-when-packed', pkn is not None and not after, 'header locals written after they were packed: %s' % [norm(n.ast) for n in after])
     rst = {norm(s.targets[0]): s.value for s in sorted([s for s in walk_own(sw.node) if isinstance(s, ast.Assign)], key=lambda s: s.lineno)}
     d = sw.params[1]
     ctx.inst('R1', sw, 'r:header-bytes', norm(rst.get('[targetsAndFlags, functionAndVersion]')) == "struct.unpack('<BB', %s[0:2])" % d, 'reader takes <BB from data[0:2]')
@@ -320,6 +328,7 @@ def check(ctx):
 
 
 VARIANTS = [
+    M('R1', CPX, "        if self.lastPacket:\n            targetsAndFlags |= 0x40\n\n        functionAndVersion = (self.function.value & 0x3F) | ((self.version & 0x3) << 6)\n        raw.extend(struct.pack('<BB', targetsAndFlags, functionAndVersion))\n", "\n        functionAndVersion = (self.function.value & 0x3F) | ((self.version & 0x3) << 6)\n        raw.extend(struct.pack('<BB', targetsAndFlags, functionAndVersion))\n        if self.lastPacket:\n            targetsAndFlags |= 0x40\n", 'flag or-ed in after the pack'),
     M('R3', TR, "        data = bytearray(struct.pack('H', packet.length+2))", "        data = bytearray(struct.pack('!H', packet.length+2))", 'big-endian prefix on both sides',
       extra=[(TR, "        size = struct.unpack('H', self._readData(2))[0]", "        size = struct.unpack('!H', self._readData(2))[0]")]),
     M('R5', CPX, "        self._rxQueues = {}\n", "        self._rxQueues = dict.fromkeys([f.value for f in CPXFunction], queue.Queue())\n", 'one queue shared by all functions'),
